@@ -20,7 +20,18 @@ ASSUMPTIONS = ["DRX_ENCODING in {mac_roman, latin_1, cp1252, ascii, utf_8}", "da
                "a font map with duplicate ids is read 'last entry wins' (the property does not say which; such maps are compared "
                "model-vs-implementation only)", "logging ignored"]
 
-CODECS = ["mac_roman", "latin_1", "cp1252", "ascii", "utf_8"]
+CODECS = ["mac_roman", "latin_1", "cp1252", "ascii", "utf_8", "default"]   # "default": DRX_ENCODING unset (get_encoding() falls back to mac_roman)
+
+
+def pyc(codec):
+    return "mac_roman" if codec == "default" else codec
+
+
+def setenc(codec):
+    if codec == "default":
+        os.environ.pop("DRX_ENCODING", None)
+    else:
+        os.environ["DRX_ENCODING"] = codec
 
 
 def r32(rng):
@@ -48,7 +59,7 @@ def rtext(rng, maxlen):
 
 def decode_or_none(b, codec):
     try:
-        return b.decode(codec)
+        return b.decode(pyc(codec))
     except UnicodeDecodeError:
         return None
 
@@ -279,7 +290,7 @@ def negative_offset_cases(rng, n):
 
 
 def cases(rng, tier):
-    n = dict(quick=(500, 500, 300, 150, 1200), thorough=(12000, 12000, 6000, 3000, 20000), search=(8000, 8000, 3000, 0, 0))[tier]
+    n = dict(quick=(2000, 2000, 1000, 400, 4000), thorough=(30000, 30000, 10000, 4000, 40000), search=(15000, 15000, 5000, 0, 0))[tier]
     out = byte_texts(rng)
     for k in (0, 1, 2, 199, 200, 1000):
         out.append(stxt_case(rng, nruns=k, kind="stxt-size"))
@@ -314,7 +325,7 @@ def impl(case):
         if cmd.startswith("enc"):
             out.append(hexes[li] if li < len(hexes) else None)
         elif cmd == "stxt":
-            os.environ["DRX_ENCODING"] = t[2]
+            setenc(t[2])
             fm = []
             if t[3] != "-":
                 for it in t[3].split(","):
@@ -322,10 +333,10 @@ def impl(case):
                     fm.append(FontInfo(bytes.fromhex(n[1:]).decode("utf-8"), int(i)))
             out.append(_J(lambda: tf(parse_stxt_data(B(t[4]), fm))))
         elif cmd == "fmap":
-            os.environ["DRX_ENCODING"] = t[2]
+            setenc(t[2])
             out.append(_J(lambda: [dict(f) for f in parse_fmap_data(B(t[3]))]))
         elif cmd == "pipeline":
-            os.environ["DRX_ENCODING"] = t[2]
+            setenc(t[2])
             out.append(_J(lambda: tf(parse_stxt_data(B(t[4]), parse_fmap_data(B(t[3]))))))
         else:
             out.append("bad-op")
